@@ -374,6 +374,33 @@ package datamodel
 //@   assigns foreign, slot(recv.slot)
 //@   ensures err == nil ==> slotdone(recv.slot, old(recv.acc))
 
+// ---- C01: Copy re-assembles the source value, entry by entry in iteration order, through the
+//      assembler protocol above (absent entries are skipped: cpm/cpl are the reference folds) ----
+//@ pure func cpm(src Val, pos mathint) Val
+//@ pure func cpl(src Val, pos mathint) Val
+//@ axiom cpm_def: forall src Val, pos mathint :: cpm(src, pos) == (pos <= 0 ? vemptymap() : (vabsent(vchild(src, pos - 1)) ? cpm(src, pos - 1) : vapp(cpm(src, pos - 1), vkey(src, pos - 1), vchild(src, pos - 1))))
+//@ axiom cpl_def: forall src Val, pos mathint :: cpl(src, pos) == (pos <= 0 ? vemptylist() : (vabsent(vchild(src, pos - 1)) ? cpl(src, pos - 1) : vappl(cpl(src, pos - 1), vchild(src, pos - 1))))
+//@ func Copy(n, na) (err)
+//@   requires na != nil
+//@   assigns foreign, slot(na)
+//@   ensures[C01] err == nil ==> n != nil && !(vkind(n.val) == Kind_Null && vabsent(n.val))
+//@   ensures[C01] err == nil && vkind(n.val) == Kind_Null ==> slotdone(na, vnullv())
+//@   ensures[C01] err == nil && vkind(n.val) == Kind_Bool ==> slotdone(na, vboolv(vbool(n.val)))
+//@   ensures[C01] err == nil && vkind(n.val) == Kind_Int ==> slotdone(na, vintv(vint(n.val)))
+//@   ensures[C01] err == nil && vkind(n.val) == Kind_Float ==> slotdone(na, vfloatv(vfloat(n.val)))
+//@   ensures[C01] err == nil && vkind(n.val) == Kind_String ==> slotdone(na, vstring(vstr(n.val)))
+//@   ensures[C01] err == nil && vkind(n.val) == Kind_Link ==> slotdone(na, vlinkv(vlink(n.val)))
+//@   ensures[C01] err == nil && vkind(n.val) == Kind_Map ==> slotdone(na, cpm(n.val, vlen(n.val)))
+//@   ensures[C01] err == nil && vkind(n.val) == Kind_List ==> slotdone(na, cpl(n.val, vlen(n.val)))
+//   every key and value goes through the key / value slot of the container begun in this slot
+//@   before AssignNode@0 assert[C01] carg1.val == vkey(n.val, itr.pos - 1)
+//@   before AssignNode@1 assert[C01] carg1.val == vchild(n.val, itr.pos - 1)
+//@   before AssignNode@2 assert[C01] carg1.val == vchild(n.val, itr.pos - 1)
+//@   loop 0 assigns foreign, itr.pos, ma.acc, ma.pend, ma.haskey
+//@   loop 0 invariant itr != nil && itr.src == n.val && 0 <= itr.pos && itr.pos <= vlen(n.val) && ma != nil && ma.slot == na && !ma.haskey && ma.acc == cpm(n.val, itr.pos)
+//@   loop 1 assigns foreign, itr.pos, la.acc
+//@   loop 1 invariant itr != nil && itr.src == n.val && 0 <= itr.pos && itr.pos <= vlen(n.val) && la != nil && la.slot == na && la.acc == cpl(n.val, itr.pos)
+
 //@ interface LargeBytesNode.AsLargeBytes() (r, err)
 //@   assigns nothing
 //@   ensures err == nil ==> r != nil
